@@ -74,8 +74,11 @@ class RevokeRequestPayload(base.RequestPayload):
         )
         tstream = BytearrayStream(istream.read(self.length))
 
-        self.unique_identifier = attributes.UniqueIdentifier()
-        self.unique_identifier.read(tstream, kmip_version=kmip_version)
+        # The unique identifier is optional in the request; if omitted, the
+        # server uses the ID placeholder.
+        if self.is_tag_next(enums.Tags.UNIQUE_IDENTIFIER, tstream):
+            self.unique_identifier = attributes.UniqueIdentifier()
+            self.unique_identifier.read(tstream, kmip_version=kmip_version)
 
         self.revocation_reason = objects.RevocationReason()
         self.revocation_reason.read(tstream, kmip_version=kmip_version)
